@@ -166,10 +166,14 @@ structure Plan where
 
 abbrev DB := String → List Row
 
+/-- reserved words the SQL parser rejects as a bare alias / column (`_UNQUOTABLE_WORDS`) -/
+def unquotableWords : List String := ["ANY", "CASE", "MAP", "NOT", "SELECT"]
+
 def isSimpleIdent (s : String) : Bool :=
-  match s.toList with
-  | [] => false
-  | c :: cs => (c.isAlpha || c == '_') && cs.all fun d => d.isAlphanum || d == '_'
+  (match s.toList with
+   | [] => false
+   | c :: cs => (c.isAlpha || c == '_') && cs.all fun d => d.isAlphanum || d == '_') &&
+  !unquotableWords.contains (String.ofList (s.toList.map Char.toUpper))
 
 /-- `_quote_identifier` (duckdb dialect) -/
 def quoteIdent (s : String) : String :=
